@@ -511,6 +511,8 @@ impl ProcfsHandle {
     /// method will return an error if the file handle is not actually the root
     /// of a procfs mount.
     pub fn try_from_fd<Fd: Into<OwnedFd>>(inner: Fd) -> Result<Self, Error> {
+        #[cfg(feature = "_verif_hooks")]
+        use crate::verif::shim_fs as rustix_fs;
         let inner = inner.into();
 
         // Make sure the file is actually a procfs handle.
@@ -549,6 +551,16 @@ impl ProcfsHandle {
             is_subset,
             resolver,
         })
+    }
+}
+
+#[cfg(feature = "_verif_hooks")]
+impl ProcfsHandle {
+    /// (root fd number, mount id, is_subset) of this handle (verification
+    /// harness only).
+    pub fn verif_describe(&self) -> (i32, Option<u64>, bool) {
+        use std::os::unix::io::AsRawFd;
+        (self.inner.as_raw_fd(), self.mnt_id, self.is_subset)
     }
 }
 
